@@ -22,4 +22,5 @@ def run(R):
     for w in (8, 12):
         R.mc("BinomWord", "MC_BinomWord_%d.cfg" % w, workers=4, emit=False)
     cases, r = R.mc("MC_Special", "MC_Special_%s.cfg" % R.tier, workers=8, timeout=3000)
-    R.replay(cases)
+    import os, vlib
+    R.replay(cases, extra_args=[os.path.join(vlib.SPEC, "ref")])
